@@ -184,7 +184,23 @@ F_DO = {
     'flipnone': lambda v: 1 if v is None else None,
     'ident': lambda v: v,
     'from_a': lambda v, a: a,
+    # reads column a through an extra argument named after it: when a itself was transformed earlier in the same call, the CURRENT a must be seen
+    'flip_of_a': lambda v, a: 1 if a is None else None,
+    'same_as_a': lambda v, a: 1 if (v is None) == (a is None) else None,
 }
+
+
+def m_do(rows, funcs, keys):
+    """sequential model of do: for each key, for each function, the column is recomputed from the current rows"""
+    import inspect
+    rows = [dict(r) for r in rows]
+    for k in keys:
+        for f in funcs:
+            extra = list(inspect.signature(f).parameters)[1:]
+            new = [f(r[k], **{e: r[e] for e in extra}) for r in rows]
+            for r, v in zip(rows, new):
+                r[k] = v
+    return rows
 F_DERIVE = {
     'c=a': (dict(c=lambda a: a), ['a'], lambda r: dict(r, c=r['a'])),
     'b=a': (dict(b=lambda a: a), ['a'], lambda r: dict(r, b=r['a'])),
@@ -277,6 +293,10 @@ def enabled_ops(m, maxrows):
         ops.append(['do', 'ident', cols])
         if 'a' in cols and len(cols) > 1:
             ops.append(['do', 'from_a', [c for c in cols if c != 'a'][:1]])
+            ops.append(['do', 'flip_of_a', ['a'] + [c for c in cols if c != 'a'][:1]])       # a is transformed first, the next key must read the NEW a
+            ops.append(['do', 'flip_of_a', [c for c in cols if c != 'a'][:1] + ['a']])
+        if 'a' in cols:
+            ops.append(['do', ['flipnone', 'same_as_a'], ['a']])                               # chained functions on one key, the second naming that key
         for k in cols:
             ops.append(['sub', [k]])
         ops.append(['sub', cols[:2]])
@@ -427,13 +447,12 @@ def apply_op(op, t, m):
                 res = mid.relabel(lambda k: k[2:])
             return ret(res, Model([mp(c) for c in m.cols], [{mp(c): v for c, v in r.items()} for r in m.rows]))
         if o == 'do':
-            f = F_DO[op[1]]
+            names = op[1] if isinstance(op[1], list) else [op[1]]
+            funcs = [F_DO[n_] for n_ in names]
             keys = list(op[2]) or list(m.cols)
-            if op[1] == 'from_a':
-                rows = [dict(r, **{k: r['a'] for k in keys}) for r in m.rows]
-            else:
-                rows = [dict(r, **{k: f(r[k]) for k in keys}) for r in m.rows]
-            res = t.do(f, *op[2]) if len(op[2]) != 1 else t.do(f, op[2][0])
+            rows = m_do(m.rows, funcs, keys)
+            farg = funcs if len(funcs) > 1 else funcs[0]
+            res = t.do(farg, *op[2]) if len(op[2]) != 1 else t.do(farg, op[2][0])
             return ret(res, Model(m.cols, rows))
         if o == 'sub':
             arg = op[1][0] if len(op[1]) == 1 else list(op[1])
